@@ -183,3 +183,10 @@ Print Assumptions C17_pending_ok_meaning.
 Theorem C17_source_tie : C17_source_tie_statement.
 Proof. exact C17_source_tie_proof. Qed.
 Print Assumptions C17_source_tie.
+
+(** The decision-critical functions of the anchored code have exactly the decisions the source tie knows about
+    (go2coq manifests, regenerated from /repo on every check; statement in SourceManifest.v). *)
+From Kardia Require Import C17.SourceManifest.
+Theorem C17_source_manifest : C17_source_manifest_statement.
+Proof. exact C17_source_manifest_proof. Qed.
+Print Assumptions C17_source_manifest.
